@@ -9,6 +9,7 @@ ChannelArbitrator did.
 -/
 import LndModel.Prelude.Lines
 import LndModel.C12.Model
+import LndModel.C12.ResDriver
 
 open LndModel LndModel.Lines LndModel.C12
 
@@ -212,6 +213,7 @@ structure St where
   watcherSpentRemote : Nat := 0
   watcherSpentPending : Nat := 0
   watcherDiffering : Nat := 0
+  watcherResolutionChecks : Nat := 0
 
 def St.env (s : St) : Env :=
   { preimageKnown := fun h => s.pre.contains h || s.perr.contains h, isForwarded := fun i => s.fwd.contains i,
@@ -801,6 +803,12 @@ def step (s : St) (line : String) : IO St := do
         if s.kind == "watcher" then
           -- judged w.r.t. the commitment that really confirmed and its real HTLC set
           let k' := s.spent.getD k
+          -- (X) lnwallet's close summary: one resolution per output of the spent commitment
+          let mres := closeSummaryResolutions (s.truth.sets.get k') false false
+          let toNats (l : List Int) : List Nat := l.map (fun i => (i % (U32 : Int)).toNat)
+          s := { s with watcherResolutionChecks := s.watcherResolutionChecks + 1 }
+          if !(mres.inOuts.isPerm (toNats resIn)) || !(mres.outOuts.isPerm (toNats resOut)) then
+            s ← mismatch s s!"watcher: close summary resolutions model in={mres.inOuts} out={mres.outOuts} impl in={resIn} out={resOut}"
           s := s.untruth (← confMonitor s.truth k' preState opFails finals res resIn resOut)
         else
           s ← confMonitor s k preState opFails finals res resIn resOut
@@ -827,7 +835,11 @@ def step (s : St) (line : String) : IO St := do
 end LndModel.C12.Driver
 
 open LndModel.C12.Driver in
-def main : IO Unit := do
+def main (args : List String) : IO Unit := do
+  -- the resolver-level stream has its own model and monitor
+  if args.contains "resolvers" then
+    LndModel.C12.ResDriver.main
+    return
   let s ← LndModel.Lines.foldStdin step {}
   IO.println s!"STAT lines={s.lines}"
   IO.println s!"STAT cases={s.cases}"
@@ -871,5 +883,6 @@ def main : IO Unit := do
   IO.println s!"STAT watcher_spent_remote={s.watcherSpentRemote}"
   IO.println s!"STAT watcher_spent_pending={s.watcherSpentPending}"
   IO.println s!"STAT watcher_commitments_differ={s.watcherDiffering}"
+  IO.println s!"STAT watcher_close_summary_resolution_checks={s.watcherResolutionChecks}"
   IO.println s!"STAT mismatches={s.mismatches}"
   IO.println s!"STAT monitor_failures={s.monitorFails}"
